@@ -23,6 +23,40 @@ def fixFlags (ds : Array Decl) : Array Decl := Id.run do
                                      canEqM := d.eqM.isNone && canEqualM env d.under }
   return cur
 
+/-- names occurring syntactically in a type -/
+def tyNames : Ty → List Nat
+  | .named i => [i]
+  | .ptr t => tyNames t
+  | .slice t => tyNames t
+  | .array _ t => tyNames t
+  | .chan t => tyNames t
+  | .map k v => tyNames k ++ tyNames v
+  | .struct fs => tyNames fs
+  | .fcons t r => tyNames t ++ tyNames r
+  | _ => []
+
+/-- declarations reachable from a type (closure over the declarations' underlying types) -/
+def reachableDecls (env : Env) (T : Ty) : List Nat := Id.run do
+  let mut seen : List Nat := []
+  let mut todo := tyNames T
+  for _ in [0:env.decls.length * 4 + 8] do
+    match todo with
+    | [] => break
+    | i :: rest =>
+      todo := rest
+      if !seen.contains i then
+        seen := i :: seen
+        match env.decl? i with
+        | some d => todo := tyNames d.under ++ todo
+        | none => pure ()
+  return seen
+
+/-- a declaration with a user method is reachable from the type -/
+def mentionsMethods (env : Env) (T : Ty) : Bool :=
+  (reachableDecls env T).any fun i => match env.decl? i with
+    | some d => d.eqM.isSome || d.cmpM.isSome || d.hashM.isSome
+    | none => false
+
 def showRes (r : Res Bool) : String :=
   match r with
   | .ok true => "true"
